@@ -284,6 +284,12 @@ pub fn size_boundary_docs() -> Vec<Vec<Node>> {
         m.size = SizeEnc::Width(1);
         out.push(vec![Node::master(ID_ROOT, vec![m])]);
     }
+    // the same with the 1-byte size field on the innermost master (only leaf bytes below it)
+    for p in 120usize..=126 {
+        let mut l = Node::master(ID_L, vec![Node::leaf(ID_LB, Val::B(vec![0x3d; p]))]);
+        l.size = SizeEnc::Width(1);
+        out.push(vec![Node::master(ID_ROOT, vec![Node::master(ID_M, vec![Node::master(ID_N, vec![Node::master(ID_K, vec![l])])])])]);
+    }
     // unknown-id raw tag with boundary payload (reader must allow unknown ids)
     out.push(vec![Node::master(ID_ROOT, vec![Node { id: 0xf2, kind: Kind::RawLeaf(vec![0x11; 127]), size: SizeEnc::Min }])]);
     out.push(vec![Node::master(ID_ROOT, vec![Node { id: 0x4f00, kind: Kind::RawLeaf(vec![]), size: SizeEnc::Min }, Node { id: 0x0100000000000003, kind: Kind::RawLeaf(vec![1, 2, 3]), size: SizeEnc::Min }])]);
